@@ -33,7 +33,7 @@ theorem mainGo_act_mono (cx : Ctx α) (width : α) (s : α × α × α) (n : Nod
       · exact ih _ _ h1
 
 theorem stepNode_keeps (cx : Ctx α) (a : Node α) (g : Grp α) (o : MOut α)
-    (h : deactivates cx (adjRatio cx.P cx.lineW cx.it cx.W cx.Y cx.Z a.d.w a.d.y a.d.z) = false) :
+    (h : deactivates cx a (adjRatio cx.P cx.lineW cx.it cx.W cx.Y cx.Z a.d.w a.d.y a.d.z) = false) :
     a ∈ (stepNode cx a g o).2.act := by
   unfold stepNode
   cases hr : adjRatio cx.P cx.lineW cx.it cx.W cx.Y cx.Z a.d.w a.d.y a.d.z with
@@ -50,7 +50,7 @@ theorem stepNode_keeps (cx : Ctx α) (a : Node α) (g : Grp α) (o : MOut α)
 
 /-- a node that is not deactivated stays in the active list -/
 theorem mainGo_keeps (cx : Ctx α) (width : α) (s : α × α × α) (a : Node α)
-    (h : deactivates cx (adjRatio cx.P cx.lineW cx.it cx.W cx.Y cx.Z a.d.w a.d.y a.d.z) = false) :
+    (h : deactivates cx a (adjRatio cx.P cx.lineW cx.it cx.W cx.Y cx.Z a.d.w a.d.y a.d.z) = false) :
     ∀ (l : List (Node α)) (g : Grp α) (o : MOut α), a ∈ l → a ∈ (mainGo cx width s l g o).act := by
   intro l
   induction l with
